@@ -3,7 +3,9 @@
 eng=$1; tmo=$2; log=$3; shift 3
 cd /verif
 exec 9>/verif/.lock-$eng; flock -n 9 || { echo "engine $eng busy"; exit 1; }
-if [ "$eng" = e2 ]; then python3 tools/overlay_ord.py >/dev/null || exit 2; else python3 tools/overlay.py >/dev/null || exit 2; fi
+if [ "$eng" = e2 ]; then python3 tools/overlay_ord.py >/dev/null || exit 2;
+elif [ "$eng" = e1s ]; then python3 -c "import sys; sys.path.insert(0,'/verif/tools'); import overlay; overlay.build('/verif/.work/e1s', variant='e1s')" >/dev/null || exit 2;
+else python3 tools/overlay.py >/dev/null || exit 2; fi
 hs=""; for h in "$@"; do hs="$hs --harness $h"; done
 cd /verif/.work/$eng
 nohup timeout 14400 cargo kani --target-dir /verif/.cache/kani-$eng -Z stubbing -Z unstable-options -j 8 --output-format=terse --harness-timeout ${tmo}s $hs > /verif/.work/probe-$log.log 2>&1 &
